@@ -46,9 +46,10 @@ def main():
     tier = os.environ.get('VERIF_TIER', 'quick')
     if '--tier' in args: tier = args[args.index('--tier') + 1]
     seed = int(os.environ.get('VERIF_SEED', '0') or 0)
-    if args[0] == 'ALL':
+    if args[0] == 'ALL' or ',' in args[0]:
         # every claimed property in one invocation; a job tagged with several properties is run once and reported under each
         props = [c['property_id'] for c in json.load(open(os.path.join(VERIF, 'MANIFEST.json')))['checks']]
+        if args[0] != 'ALL': props = [p for p in args[0].split(',') if p]
         heavy_first = sorted(props, key=lambda p: 0 if p in ('C08', 'C02', 'C12', 'C09', 'C18') else 1)
         rcs = []
         for p in heavy_first:
